@@ -23,6 +23,10 @@ CLAIMED["C13"] = dict(engine="clisim", design="DESIGN.md §5 C13, Appendix B",
    text="Seeded search over (failing statement position x global tx-mode x per-file txmode directives x count argument x earlier applies) against the real CLI and a real SQLite file; oracle = whole-state equality (schema + every row + revision rows minus label columns, read by an independent observer) with the per-mode state model of Appendix B, then fix + re-hash + re-run must equal a fault-free run.",
    note="'no revision table' == 'empty revision table'; label columns are not compared; SQLite only.",
    technique="deterministic simulation: injected statement failures in the real CLI process, state-model refinement by independent observer, tape shrinking + exact replay")
+CLAIMED["C11"] = dict(engine="execsim", design="DESIGN.md §5 C11, Appendix A",
+   text="Refinement against a small executable reference model (model.Pending, written from the documented semantics): histories are reached by seeded operator actions (add newer / older file, checkpoint, dirty database, apply n with exec-order / baseline / allow-dirty, injected failing statements that leave partial revisions) and after every apply the executed statements and the error class are compared with the model's decision.",
+   note="Fixed-width versions; stub database and revision store in the API half; the CLI half (status / apply n / set on a real SQLite file) is part clisim-c11 when present in the evidence.",
+   technique="deterministic simulation: seeded operation + fault sequences, refinement against an executable reference model, tape shrinking + exact replay")
 
 NOT_BUILT = {
  "C01": "not built yet in this tree (planned claim, DESIGN \u00a75); listed here so that every unclaimed property has an entry",
